@@ -75,6 +75,24 @@ Theorem C13_chunking_irrelevant : forall c hs alloc ops1 ops2, good_cfg c ->
 Proof. exact chunking_irrelevant_all. Qed.
 Print Assumptions C13_chunking_irrelevant.
 
+(* the caller may pass the same buffer through a different (pointer variable, size variable) record
+   on every call: the result is stored in the record of the CURRENT call (the contracts above speak
+   about exactly that record), no other record changes, nothing goes through an earlier call's variables *)
+Theorem C13_current_pair : forall c hs alloc ops, good_cfg c ->
+  w_ok (run c (hs ++ [HCall alloc ops])) = true ->
+  forallb hop_chunks_ok hs = true -> forallb chunk_ok ops = true ->
+  other_pairs (run c (hs ++ [HCall alloc ops])) = other_pairs (run c hs) /\
+  lib_clean (run c (hs ++ [HCall alloc ops])) = true.
+Proof. exact current_pair_all. Qed.
+Print Assumptions C13_current_pair.
+
+(* binding outbuffer/outsize only for a non-reused buffer (seeded change C13-5) is refuted *)
+Theorem C13_rebind_only_when_not_reused_refuted :
+  verdict (run cfg_tj_norebind hist_pairs) = (true, [], Some BadStalePair) /\
+  verdict (run cfg_tj hist_pairs) = (true, [], None).
+Proof. exact norebind_stale_pair. Qed.
+Print Assumptions C13_rebind_only_when_not_reused_refuted.
+
 (* the two destination managers of the tree are instances (cfg_tj reads the F2 rule from the source) *)
 Theorem C13_instances : good_cfg cfg_tj /\ good_cfg cfg_ijg.
 Proof. exact (conj good_tj good_ijg). Qed.
